@@ -11,5 +11,9 @@ head = f"{len(rows)} changes kept; {caught} reported by the registered checks as
 a = s.index("<!-- SEEDED-TABLE-BEGIN -->") + len("<!-- SEEDED-TABLE-BEGIN -->")
 b = s.index("<!-- SEEDED-TABLE-END -->")
 s = s[:a] + "\n" + head + tab + "\n" + s[b:]
+st = subprocess.check_output(["python3", os.path.join(V, "tools", "status_table.py")], text=True)
+a = s.index("<!-- STATUS-TABLE-BEGIN -->") + len("<!-- STATUS-TABLE-BEGIN -->")
+b = s.index("<!-- STATUS-TABLE-END -->")
+s = s[:a] + "\n" + st + "\n" + s[b:]
 open(p, "w").write(s)
 print(len(rows), "rows,", caught, "caught")
